@@ -631,6 +631,11 @@ pub fn exec(ctx: &mut Ctx, t: &mut Toks) -> String {
         let mut st = m.lock().unwrap();
         let kind = t.next();
         let prev = (st.jitter_count, st.interleaved);
+        if kind == "slowvote" {
+            // `trk sched slowvote <us>`: every voting job of the batch trackers starts with this delay (kept until `off`)
+            st.vote_delay_us = t.u64();
+            return format!("OK {} {}", prev.0, prev.1);
+        }
         *st = crate::sched::State::default();
         if kind == "jitter" {
             st.active = true;
